@@ -51,25 +51,31 @@ theorem C17_returned_closed (h : Host) (hw : WF h) (hr : h.closes.any Close.isRe
   exact ⟨hd, ht, hcu, hr⟩
 
 /-- full-strength statement of "quiet": in a closed host every block that can occur at all (other than the creation of
-a browser, an API call made after the close) emits nothing -/
+a browser, an API call made after the close) emits nothing.  **Reading**: a callback *fires* when it starts; the one callback a
+browser thread may already be running when `close()` returns started before the return (blocks are atomic here: a
+`browserThread` block before the returning block). -/
 def C17_quiet_full : Prop :=
   ∀ (h : Host), WF h → Closed h → ∀ (b : Block), b.isBrowse = false → ∀ (h' : Host) (o : List Out),
     step h b = some (h', o) → (∀ x ∈ o, x.isEmission = false) ∧ Closed h'
 
-/-- **C17, quiet (one block), partial.**  In a closed host in which no thread-based browser has state changes waiting
-in its queue, every block that can occur at all — timer, task resumption, a further close call (sync or async) or a step
-of a close still in progress, an API call, a browser thread looking at its queue — emits nothing (no datagram, no goodbye,
-no callback), and the host stays closed with empty queues.
-The extra hypothesis `QueuesEmpty` is exactly the complement of finding **D31**: the browsers of `Zeroconf.browsers` were
-joined by `_close()` (`C17_close_joins_tracked_thread_browsers`), so the only queues that can be non-empty belong to
-thread-based browsers the instance does not track — and those do call back after the close (`C17_quiet_full_refuted`). -/
-theorem C17_quiet_partial (h : Host) (hw : WF h) (hc : Closed h) (hq : QueuesEmpty h) (b : Block) (hnb : b.isBrowse = false)
-    (h' : Host) (o : List Out) (hs : step h b = some (h', o)) :
-    (∀ x ∈ o, x.isEmission = false) ∧ Closed h' ∧ QueuesEmpty h' := by
-  have hq' := QueuesEmpty_step h b h' o hq ⟨hc.1, hc.2.1, hc.2.2.1⟩ hnb hs
+/-- every browser thread that finds something in its queue stops instead of delivering it: true when the queues are empty
+(`QueuesEmpty`), and true on a done instance when `ServiceBrowser.run()` looks at the instance's `done` flag (the D31 repair) -/
+def ThreadsStop (h : Host) : Prop :=
+  ∀ (i : Nat) (b : Browser), h.browsers[i]? = some b → b.threaded = true → b.queued ≠ 0 →
+    Gen.Shutdown.thread_run_stops false h.done b.cancelled = true
+
+theorem threadsStop_of_queuesEmpty (h : Host) (hq : QueuesEmpty h) : ThreadsStop h :=
+  fun _ b hb ht hne => absurd (hq b (List.mem_of_getElem? hb) ht) hne
+
+theorem threadsStop_of_repaired (h : Host) (hd : h.done = true) (hfix : ∀ c, Gen.Shutdown.thread_run_stops false true c = true) :
+    ThreadsStop h := fun _ b _ _ _ => by rw [hd]; exact hfix _
+
+/-- quiet, one block, over `ThreadsStop` -/
+theorem C17_quiet_core (h : Host) (hw : WF h) (hc : Closed h) (hts : ThreadsStop h) (b : Block) (hnb : b.isBrowse = false)
+    (h' : Host) (o : List Out) (hs : step h b = some (h', o)) : (∀ x ∈ o, x.isEmission = false) ∧ Closed h' := by
   obtain ⟨hd, ht, hcl, hret⟩ := hc
   have sm := step_summary h b h' o hw hs
-  refine ⟨?_, ⟨sm.done_mono hd, sm.tc_mono ht, sm.cu_mono hcl, sm.ret_mono hret⟩, hq'⟩
+  refine ⟨?_, ⟨sm.done_mono hd, sm.tc_mono ht, sm.cu_mono hcl, sm.ret_mono hret⟩⟩
   have hg : ∀ l, gated h l = [] := gated_of_done h hd
   have hbody : ∀ s, (closeBody h s).2.1 = [] := by
     intro s
@@ -91,10 +97,12 @@ theorem C17_quiet_partial (h : Host) (hw : WF h) (hc : Closed h) (hq : QueuesEmp
       split at hs
       · simp at hs
       · rename_i hen
-        -- enabled only with something queued: excluded by `QueuesEmpty`
-        have := hq b0 (List.mem_of_getElem? hb0)
         simp only [Bool.or_eq_true, Bool.not_eq_true', decide_eq_true_eq, not_or, Bool.not_eq_false] at hen
-        exact absurd (this hen.1) hen.2
+        -- something is queued: the thread stops
+        rw [hts i b0 hb0 hen.1 hen.2] at hs
+        simp only [↓reduceIte, Option.some.injEq, Prod.mk.injEq] at hs
+        obtain ⟨_, rfl⟩ := hs
+        simp
   | schedFire i q =>
     simp only [step] at hs
     split at hs
@@ -118,6 +126,28 @@ theorem C17_quiet_partial (h : Host) (hw : WF h) (hc : Closed h) (hq : QueuesEmp
          | (simp [hg, hbody, hz, Out.isEmission]; done)
          | (split <;> simp [hg, hbody, hz, Out.isEmission]; done))
 
+/-- **C17, quiet (one block), partial (D31).**  In a closed host in which no thread-based browser has state changes waiting
+in its queue, every block that can occur at all — timer, task resumption, a further close call (sync or async) or a step
+of a close still in progress, an API call, a browser thread looking at its queue — emits nothing (no datagram, no goodbye,
+no callback), and the host stays closed with empty queues.
+The extra hypothesis `QueuesEmpty` is exactly the complement of finding **D31**: the browsers of `Zeroconf.browsers` were
+joined by `_close()` (`C17_close_joins_tracked_thread_browsers`), so the only queues that can be non-empty belong to
+thread-based browsers the instance does not track — and on a tree whose `ServiceBrowser.run()` stops at the sentinel only
+those do call back after the close (`C17_quiet_full_refuted_unrepaired`).  With the D31 repair the hypothesis is not needed:
+`C17_quiet_repaired`. -/
+theorem C17_quiet_partial (h : Host) (hw : WF h) (hc : Closed h) (hq : QueuesEmpty h) (b : Block) (hnb : b.isBrowse = false)
+    (h' : Host) (o : List Out) (hs : step h b = some (h', o)) :
+    (∀ x ∈ o, x.isEmission = false) ∧ Closed h' ∧ QueuesEmpty h' := by
+  have hq' := QueuesEmpty_step h b h' o hq ⟨hc.1, hc.2.1, hc.2.2.1⟩ hnb hs
+  obtain ⟨e, c⟩ := C17_quiet_core h hw hc (threadsStop_of_queuesEmpty h hq) b hnb h' o hs
+  exact ⟨e, c, hq'⟩
+
+/-- **C17, quiet (one block), at full strength on a tree with the D31 repair**: if `ServiceBrowser.run()` returns when the
+instance is done (`hfix`: the translated test of `run()`, evaluated with `zc.done = True`), then `C17_quiet_full` holds —
+whatever is still queued for whichever thread-based browser is dropped, not delivered. -/
+theorem C17_quiet_repaired (hfix : ∀ c, Gen.Shutdown.thread_run_stops false true c = true) : C17_quiet_full :=
+  fun h hw hc b hnb h' o hs => C17_quiet_core h hw hc (threadsStop_of_repaired h hc.1 hfix) b hnb h' o hs
+
 /-- **C17, quiet (forever), partial (D31).**  After some close call has returned with no thread-based browser holding
 undelivered state changes, every sequence of blocks — hours of timers, task wake-ups, browser threads, the remaining steps
 of overlapping closes, further closes (sync or async), API calls — emits nothing at all. -/
@@ -135,6 +165,27 @@ theorem C17_quiet_run_partial (bs : List Block) (hnb : ∀ b ∈ bs, b.isBrowse 
     obtain ⟨e1, c1, q1⟩ := C17_quiet_partial h hw hc hq b (hnb b (by simp)) s1 o1 h1
     obtain ⟨e2, c2, w2, q2⟩ := ih (fun x hx => hnb x (by simp [hx])) s1 (WF_step h b s1 o1 hw h1) c1 q1 h' o2 h2
     refine ⟨?_, c2, w2, q2⟩
+    intro x hx
+    rcases List.mem_append.mp hx with hx | hx
+    · exact e1 x hx
+    · exact e2 x hx
+
+/-- **C17, quiet (forever), at full strength on a tree with the D31 repair.** -/
+theorem C17_quiet_run_repaired (hfix : ∀ c, Gen.Shutdown.thread_run_stops false true c = true) (bs : List Block)
+    (hnb : ∀ b ∈ bs, b.isBrowse = false) : ∀ (h : Host), WF h → Closed h →
+    ∀ h' o, run h bs = some (h', o) → (∀ x ∈ o, x.isEmission = false) ∧ Closed h' ∧ WF h' := by
+  induction bs with
+  | nil =>
+    intro h hw hc h' o hr
+    simp only [run, Option.some.injEq, Prod.mk.injEq] at hr
+    obtain ⟨rfl, rfl⟩ := hr
+    exact ⟨by simp, hc, hw⟩
+  | cons b rest ih =>
+    intro h hw hc h' o hr
+    obtain ⟨s1, o1, o2, h1, h2, rfl⟩ := run_cons h b rest h' o hr
+    obtain ⟨e1, c1⟩ := C17_quiet_repaired hfix h hw hc b (hnb b (by simp)) s1 o1 h1
+    obtain ⟨e2, c2, w2⟩ := ih (fun x hx => hnb x (by simp [hx])) s1 (WF_step h b s1 o1 hw h1) c1 h' o2 h2
+    refine ⟨?_, c2, w2⟩
     intro x hx
     rcases List.mem_append.mp hx with hx | hx
     · exact e1 x hx
@@ -850,29 +901,41 @@ def syncSeq (k : Nat) : List Block :=
   [.closeCall true, .closeGoodbye k, .closeGoodbye k, .closeMarkDone k none, .closeShutdown k, .closeFinish k,
    .closeThreadsCheck k, .closeThreadsStop k]
 
-/-- **D30, machine-checked.**  The listener of the tracked thread-based browser calls `close()` from its callback:
-`_close()` runs on that browser's own thread, `join()` raises `RuntimeError` out of `close()`; the goodbyes are out, but
-`done` is not set and the transports stay open; the browser has been through `_async_cancel` and is still in
-`Zeroconf.browsers` — so the next `close()` cancels it a second time and the `assert` fails inside the loop. -/
-theorem C17_close_from_browser_callback_raises :
-    (run threadHost [.closeCall true, .closeGoodbye 0, .closeGoodbye 0, .closeMarkDone 0 (some 0)]).map
-      (fun r => (r.2, r.1.done, r.1.transportsClosed, r.1.closes.map (·.stage))) =
-      some ([.goodbye, .goodbye, .goodbye, .raised .runtimeError], false, false, [.aborted]) ∧
-    (run threadHost ([.closeCall true, .closeGoodbye 0, .closeGoodbye 0, .closeMarkDone 0 (some 0), .closeCall true,
-        .closeMarkDone 1 none])).map (fun r => r.2.contains .loopError) = some true := by
-  constructor <;> decide
+/-- **D30, machine-checked (for every state in its class).**  When `_close()` of a sync close runs on the callback thread of a
+live browser of `Zeroconf.browsers` and `cancel()` does not test for that (`selfJoins`), `join()` raises `RuntimeError` out of
+`close()`: nothing else happens in that call — `done` is not set, the transports stay open, the call has ended (`aborted`) — and
+the browser has been through `_async_cancel` while still in `Zeroconf.browsers`. -/
+theorem C17_close_from_browser_callback_raises (h : Host) (i : Nat) (c : Option Nat)
+    (hi : h.closes[i]? = some ⟨true, .unregistering 0⟩) (hj : Block.selfJoins h (.closeMarkDone i c) = true) :
+    ∃ h', step h (.closeMarkDone i c) = some (h', [.raised .runtimeError]) ∧ h'.done = h.done ∧
+      h'.transportsClosed = h.transportsClosed ∧ h'.closes[i]? = some ⟨true, .aborted⟩ := by
+  have hlt : i < h.closes.length := (List.getElem?_eq_some_iff.mp hi).1
+  simp only [Block.selfJoins] at hj
+  simp only [step, hi, hj, ↓reduceIte]
+  exact ⟨_, rfl, rfl, rfl, by simp [Host.setStage, hlt]⟩
 
-theorem C17_close_never_raises_full_refuted : ¬ C17_close_never_raises_full := by
-  intro hf
-  cases hs : step ({ threadHost with closes := [⟨true, .unregistering 0⟩] }) (.closeMarkDone 0 (some 0)) with
-  | none => exact absurd hs (by decide)
-  | some r =>
-    have hr : r.2 = [.raised .runtimeError] := by
-      have : (step ({ threadHost with closes := [⟨true, .unregistering 0⟩] }) (.closeMarkDone 0 (some 0))).map (·.2)
-          = some [.raised .runtimeError] := by decide
-      rw [hs] at this
-      simpa using this
-    exact hf _ _ rfl r.1 r.2 (by rw [hs]) .runtimeError (by rw [hr]; simp)
+/-- the class is inhabited on a tree without the D30 repair (`threadHost`: the listener of its tracked browser calls `close()`),
+and empty on a tree with it -/
+theorem C17_selfJoins_unrepaired (hu : Gen.Shutdown.thread_cancel_guards_self_join = false) :
+    Block.selfJoins { threadHost with closes := [⟨true, .unregistering 0⟩] } (.closeMarkDone 0 (some 0)) = true := by
+  simp [Block.selfJoins, selfJoin, threadHost, cancelJoins_eq, hu, close_skipped_iff]
+
+theorem C17_selfJoins_repaired (hg : Gen.Shutdown.thread_cancel_guards_self_join = true) (h : Host) (b : Block) :
+    b.selfJoins h = false := by
+  cases b <;> simp [Block.selfJoins]
+  rename_i i c
+  cases c with
+  | none => simp [selfJoin]
+  | some j =>
+    simp only [selfJoin]
+    split <;> simp [hg]
+
+/-- after it, the next `close()` cancels that browser a second time and the `assert` of `_async_cancel` fails inside the loop -/
+theorem C17_second_cancel_asserts (h : Host) (hd : h.done = false) (b : Browser) (hb : b ∈ h.browsers) (hz : b.zcTracked = true)
+    (hc : b.cancelled = true) : Out.loopError ∈ (zcClose h).2 := by
+  rw [zcClose_of_not_done h hd]
+  simp only [syncCancelOuts, List.mem_flatMap]
+  exact ⟨b, hb, by simp [hz, hc]⟩
 
 /-- **D32, machine-checked.**  Two sync closes from two threads on an instance with its own loop thread, both past
 `engine.close()`: both pass the `if not self._loop_thread` test, the first stops the loop and forgets the thread, the second
@@ -886,15 +949,33 @@ theorem C17_overlapping_sync_closes_raise :
     (run { threadHost with registry := 0 } d32Blocks).map (fun r => (r.2.filter isRaised, r.1.closes.map (·.stage))) =
       some ([.raised .timeout], [.returned, .aborted]) := by decide
 
-/-- full-strength "quiet" is false: **D31, machine-checked.**  A closed host with a thread-based browser the instance does
-not track (the README's `ServiceBrowser(zc, type, listener)`) that still has two state changes in its queue: its thread
+/-- the full statement is false on every tree: the last block of the D32 interleaving is a step of a close and raises -/
+theorem C17_close_never_raises_full_refuted : ¬ C17_close_never_raises_full := by
+  intro hf
+  cases hr : run { threadHost with registry := 0 } (d32Blocks.take 11) with
+  | none => exact absurd hr (by decide)
+  | some r =>
+    cases hs : step r.1 (.closeThreadsStop 1) with
+    | none =>
+      have : ((run { threadHost with registry := 0 } (d32Blocks.take 11)).bind (fun r => step r.1 (.closeThreadsStop 1))).isSome = true := by decide
+      rw [hr] at this
+      simp [hs] at this
+    | some r2 =>
+      have h2 : ((run { threadHost with registry := 0 } (d32Blocks.take 11)).bind (fun r => step r.1 (.closeThreadsStop 1))).map (·.2)
+          = some [.raised .timeout] := by decide
+      rw [hr] at h2
+      simp only [Option.bind, hs, Option.map, Option.some.injEq] at h2
+      exact hf r.1 _ rfl r2.1 r2.2 (by rw [hs]) .timeout (by rw [h2]; simp)
+
+/-- full-strength "quiet" is false on a tree without the D31 repair: **D31, machine-checked.**  A closed host with a thread-based
+browser the instance does not track (the README's `ServiceBrowser(zc, type, listener)`) that still has two state changes in its queue: its thread
 delivers them to the listener after the close has returned. -/
 def d31Host : Host :=
   { done := true, running := false, transportsClosed := true, cleanupArmed := false, registry := 0,
     browsers := [{ tracked := false, cancelled := false, timer := false, listening := true, threaded := true, zcTracked := false, queued := 2 }],
     outq := 0, tcs := [], lookups := 0, probing := 0, announcing := 0, closes := [⟨true, .returned⟩], loopThread := false, loopRunning := false }
 
-theorem C17_quiet_full_refuted : ¬ C17_quiet_full := by
+theorem C17_quiet_full_refuted_unrepaired (hu : ∀ z c, Gen.Shutdown.thread_run_stops false z c = false) : ¬ C17_quiet_full := by
   intro hf
   have hw : WF d31Host := by
     refine ⟨?_, fun _ => by decide⟩
@@ -902,8 +983,14 @@ theorem C17_quiet_full_refuted : ¬ C17_quiet_full := by
     simp only [d31Host, List.mem_singleton] at hc
     subst hc
     exact ⟨by simp, by simp, fun _ => by decide⟩
-  have := (hf d31Host hw (by decide) (.browserThread 0) rfl _ _ rfl).1
-  exact absurd (this .callback (by simp)) (by decide)
+  cases hs : step d31Host (.browserThread 0) with
+  | none => simp [step, d31Host, hu] at hs
+  | some r =>
+    have hr : r.2 = [.callback] := by
+      simp [step, d31Host, hu] at hs
+      rw [← hs]
+    have := (hf d31Host hw (by decide) (.browserThread 0) rfl r.1 r.2 (by rw [hs])).1
+    exact absurd (this .callback (by rw [hr]; simp)) (by decide)
 
 /-! ### non-vacuity -/
 
@@ -970,9 +1057,10 @@ example : (run threadHost (syncSeq 0 ++ [.closeCall true, .closeMarkDone 1 none,
     (fun r => (r.2.drop 5, r.1.closes.map (·.stage))) = some ([], [.returned, .returned]) := by decide
 -- the first four blocks of the D32 interleaving are class-free, the tenth (the second `closeThreadsCheck`) is not
 example : (run { threadHost with registry := 0 } (d32Blocks.take 9)).map (fun r => Block.overlapsStop r.1 (.closeThreadsCheck 1)) = some true := by decide
--- the D30 block is in the class `selfJoins`, the same `_close()` from a plain thread is not
-example : Block.selfJoins { threadHost with closes := [⟨true, .unregistering 0⟩] } (.closeMarkDone 0 (some 0)) = true
-    ∧ Block.selfJoins { threadHost with closes := [⟨true, .unregistering 0⟩] } (.closeMarkDone 0 none) = false := by decide
+-- `_close()` from a plain thread is never in the class `selfJoins` (from the browser's own thread it is, on a tree without the
+-- D30 repair: `C17_selfJoins_unrepaired`)
+example : Block.selfJoins { threadHost with closes := [⟨true, .unregistering 0⟩] } (.closeMarkDone 0 none) = false := by
+  simp [Block.selfJoins, selfJoin]
 
 -- creating a browser on a closed host *does* call back (cache replay): the one block `C17_quiet_partial` excludes, and why
 example : ∃ r, run busy (closeSeq ++ [.apiBrowse false 2]) = some r ∧ r.2.drop 9 = [.callback, .callback] := by decide
